@@ -48,6 +48,8 @@ type Workload struct {
 	HorizonS    int    `json:"horizonS"`   // simulated seconds
 	MaxAttempts int64  `json:"maxAttempts"`
 	FailFirst   bool   `json:"failFirst"` // the first attempt of every index fails
+	// DeleteNewestAt: at this simulated second the user deletes the newest scheduled Job (0 = never).
+	DeleteNewestAt int `json:"deleteNewestAt,omitempty"`
 }
 
 type cronNoop struct{}
@@ -74,6 +76,8 @@ type Run struct {
 	steps   int
 	states  map[string]bool
 	onCrash func()
+	// userDeleted: the one user deletion of the workload has happened
+	userDeleted bool
 }
 
 func newRun(wl Workload, plan map[int]sim.FaultKind, states map[string]bool) *Run {
@@ -173,6 +177,9 @@ func (r *Run) onWrite(wr sim.Write) {
 			}
 		}
 		r.jobsFor[id]++
+		if r.jobsFor[id] > 1 {
+			r.Violate("C20", "schedule-time-created-again", fmt.Sprintf("a Job for schedule time %s was created again (%s); the first one had been created and recorded before", rj.Annotations[jobconfig.AnnotationKeyScheduleTime], rj.Name), r.Features()...)
+		}
 	case wr.Resource == sim.Jobs && wr.Verb == "update":
 		old, new := wr.Old.(*execution.Job), wr.New.(*execution.Job)
 		if old.Status.StartTime.IsZero() && !new.Status.StartTime.IsZero() && r.wl.Policy != "Allow" {
@@ -343,6 +350,25 @@ func (r *Run) Execute() (final string, ok bool) {
 			}
 			if !r.kubelet() {
 				break
+			}
+		}
+		if at := r.wl.DeleteNewestAt; at > 0 && !r.userDeleted && !r.Now().Before(sim.Epoch.Add(time.Duration(at)*time.Second)) {
+			r.userDeleted = true
+			var newest *execution.Job
+			for _, o := range r.API.List(sim.Jobs) {
+				rj := o.(*execution.Job)
+				if t := jobconfig.GetLabelScheduleTime(rj); t != nil && rj.DeletionTimestamp == nil {
+					if newest == nil || t.After(jobconfig.GetLabelScheduleTime(newest).Time) {
+						newest = rj
+					}
+				}
+			}
+			if newest != nil {
+				if err := r.API.Delete("env", sim.Jobs, sim.ObjKey(newest), -1); err != nil {
+					panic(err)
+				}
+				r.note()
+				continue // let the controllers react at this same instant
 			}
 		}
 		if !r.Now().Before(horizon) {
